@@ -30,7 +30,16 @@ RULE = ("fixed x mobile sizes 1..40 x 1..25 (a third of the cases biased to <= 6
         "8 eps (|t| + extent) sum(d) / sum(d^2), stays below 1e-10 = a tenth of the 1e-9 relative tolerance (measured on the "
         "unchanged tree: worst relative change 1.5e-11 over 14 500 capped motions, 26% of them with |t| >= 1000 nm; uncapped "
         "1.0e-10 at |t| = 1e4 and 1.3e-9 at 1e5 over 3 000 cases); rows with a relative gap < 1e-6 between the two nearest atoms "
-        "are excluded from the far motion. A case is non-trivial when it is distinct and has more than one atom on some "
+        "are excluded from the far motion. Argument types: a third of the generic and dyadic calculators receive their three "
+        "coordinate arguments as int64 / int32 / float32 / float64 ndarrays, lists of lists or tuples of tuples (coordinates "
+        "rescaled to an extent of 4, integer-typed sets rounded; the reference is computed from the VALUES passed): anything "
+        "without restraints; with restraints the fixed and evaluated sets are ndarrays of any dtype (the unchanged code indexes "
+        "them with index arrays) and the construction set anything; a third of the typed cases have an integer fixed array; "
+        "not generated: fixed and evaluated set BOTH float32 with restraints. In-place sequences: later calls may pass the SAME "
+        "ndarray object as the previous call after `x[...] = new` / np.copyto / single-row assignment (translation, rotation "
+        "written back, one atom moved), or the very object the calculator was constructed with (also changed in place "
+        "afterwards); after the constructor and after every call the caller's fixed, construction and evaluated arrays are "
+        "compared bit for bit with snapshots. A case is non-trivial when it is distinct and has more than one atom on some "
         "side; the histogram records path taken, restraint kind, k, ties.")
 
 EPS = 2.0 ** -53
@@ -233,6 +242,8 @@ def add_types(rs, case, force=False):
         kinds["m1"] = ["int64", "int32"][rs.randint(2)]      # integer lattice for the fixed molecule, as the suite does
     if not free and kinds["m1"] == "float32" and kinds["m2e"] == "float32":
         kinds["m2e"] = "float64"
+    if not free and kinds["m1"] == "float32" and kinds["m2c"] == "float32" and "construction" in case.get("more_how", []):
+        kinds["m2c"] = "float64"       # the construction object is evaluated too
     ext = max(1e-9, max(float(np.abs(np.array(a, dtype=float)).max()) for a in [case["m1"], case["m2c"]] + seq_of(case)))
     f = 1.0 if case["stream"] == "dyadic" else 4.0 / ext
 
@@ -740,11 +751,11 @@ def corpus(ctx):
 def dyadic_case(case):
     """every coordinate is a multiple of 1/8 of magnitude <= 64: binary64 arithmetic of the model and of numpy is exact"""
     return all(abs(x) <= 64 and float(x * 8).is_integer()
-               for conf in [case["m1"], case["m2c"]] + seq_of(case) for p in conf for x in p)
+               for conf in [case["m1"]] + seq_of(case) for p in conf for x in p)    # (the construction set is not computed with)
 
 
 def coq_case(case, out, conf=None):
-    exact = "true" if dyadic_case(case) and case["stream"] in ("dyadic", "corpus") else "false"
+    exact = "true" if dyadic_case(case) else "false"
     obs = {"val": lambda: "(ObsVal %s)" % fl(out[1]), "errmake": lambda: "ObsErrMake",
            "errcall": lambda: "ObsErrCall", "errvalue": lambda: "ObsErrValue"}[out[0]]()
 
